@@ -26,7 +26,7 @@
      not MustModify).                                                                                  *)
 EXTENDS Naturals, Integers, Sequences, FiniteSets, TLC, Json, FiniteSetsExt, SequencesExt
 
-CONSTANTS Families,   \* subset of {"single", "pair", "size", "limit", "cfg"}; {} for trace validation (no enumeration)
+CONSTANTS Families,   \* subset of {"single", "pair", "size", "limit", "cfg", "usage"}; {} for trace validation (no enumeration)
           Wide        \* TRUE: thorough-tier bounds
 
 TmpPrs == {"TMP", "PRS"}
@@ -36,7 +36,7 @@ TmpPrs == {"TMP", "PRS"}
 Seen(F)          == IF F.skipped THEN {} ELSE F.V                    \* C34: a skipped file is never linted
 Live(F)          == {v \in Seen(F) : ~v.suppressed /\ ~v.warning}
 Blocked(R, F)    == ~R.feu /\ \E v \in Seen(F) : v.kind \in TmpPrs     \* suppressed ones count (C18)
-MayModify(R, F)  == R.cmd # "lint" /\ ~Blocked(R, F) /\ ~F.skipped /\ ~F.limit      \* C18, C34
+MayModify(R, F)  == R.cmd # "lint" /\ R.usage = "none" /\ ~Blocked(R, F) /\ ~F.skipped /\ ~F.limit      \* C18, C34
 Remains(R, F, v) == v.kind = "LINT" /\ (~v.fixable \/ Blocked(R, F) \/ F.limit)
 FI(R)            == 1..Len(R.files)
 SkippedCount(R)  == Cardinality({i \in FI(R) : R.files[i].skipped})
@@ -48,7 +48,8 @@ FixFails(R)      == \/ \E i \in FI(R) : \E v \in Live(R.files[i]) : Remains(R, R
                     \/ SkipFails(R)
 FixAmbiguous(R)  == R.feu /\ \E i \in FI(R) : R.files[i].notree /\ \E v \in Live(R.files[i]) : v.kind \in TmpPrs
 ExitFixSet(R)    == IF FixFails(R) THEN {1} ELSE IF FixAmbiguous(R) THEN {0, 1} ELSE {0}
-ExitSet(R)       == IF R.cmd = "lint" THEN {ExitLint(R)} ELSE ExitFixSet(R)
+\* usage / configuration errors (no such path, unknown dialect or templater, no dialect, bad option): 2, nothing is run
+ExitSet(R)       == IF R.usage # "none" THEN {2} ELSE IF R.cmd = "lint" THEN {ExitLint(R)} ELSE ExitFixSet(R)
 \* exit 0 means no live violation remains, so a live fixable one in a file that may be modified was fixed:
 MustModify(R, F) == MayModify(R, F) /\ ~F.notree /\ \E v \in Live(F) : v.kind = "LINT" /\ v.fixable
 \* C18, second sentence: at the loop limit the violations of the file are reported without fixes
@@ -109,14 +110,17 @@ AApiRaises(R)    == AApiGate(R) /\ (R.files[1].notree \/ R.files[1].skipped)
 AApiModified(R)  == LET F == AFile(R.files[1])
                     IN AApiGate(R) /\ ~F.notree /\ ~F.skipped /\ \E v \in F.V : HasFixes(F, v) /\ ~(v.suppressed /\ v.viaNoqa)
 
-APathExit(R)     == IF R.cmd = "lint" THEN ALintExit(R) ELSE APathFixExit(R)
-AStdinExit(R)    == IF R.cmd = "lint" THEN ALintExit(R) ELSE AStdinFixExit(R)
+\* usage errors: sys.exit(EXIT_ERROR) in get_config / PathAndUserErrorHandler / click; an unknown dialect named in a
+\* config FILE is not caught anywhere: FluffConfig.__init__ lets dialect_selector's KeyError escape (exit 1, traceback)
+AUsageExit(R)    == IF R.usage = "unknown_dialect_cfg" THEN 1 ELSE 2
+APathExit(R)     == IF R.usage # "none" THEN AUsageExit(R) ELSE IF R.cmd = "lint" THEN ALintExit(R) ELSE APathFixExit(R)
+AStdinExit(R)    == IF R.usage # "none" THEN AUsageExit(R) ELSE IF R.cmd = "lint" THEN ALintExit(R) ELSE AStdinFixExit(R)
 
 \* Algo vs Contract, clause by clause (what TLC reports; expected non-empty exactly for the known defects)
 \* A = what the path pipeline sees, AS = what the string pipeline (stdin, sqlfluff.lint/fix) sees, R = contract run
 Diff(A, AS, R) ==
   LET one == Len(R.files) = 1
-      fix == R.cmd # "lint"
+      fix == R.cmd # "lint" /\ R.usage = "none"
       str == one /\ R.limkind # "byte"          \* stdin / API take a string: only the char limit applies to them
   IN   (IF APathExit(A) \notin ExitSet(R) THEN {"C22.Exit.path"} ELSE {})
   \cup (IF str /\ AStdinExit(AS) \notin ExitSet(R) THEN {"C22.Exit.stdin"} ELSE {})
@@ -165,7 +169,7 @@ Modes == {[cmd |-> "lint", feu |-> FALSE, nofail |-> FALSE], [cmd |-> "lint", fe
           [cmd |-> "fix", feu |-> FALSE, nofail |-> FALSE], [cmd |-> "fix", feu |-> TRUE, nofail |-> FALSE],
           [cmd |-> "format", feu |-> FALSE, nofail |-> FALSE]}
 Sc(fam, m, files, limkind, skipfail, runaway, cfgsrc, cfgitem, procs) ==
-   [family |-> fam, cmd |-> m.cmd, feu |-> m.feu, nofail |-> m.nofail, files |-> files, limkind |-> limkind,
+   [family |-> fam, usage |-> "none", cmd |-> m.cmd, feu |-> m.feu, nofail |-> m.nofail, files |-> files, limkind |-> limkind,
     skipfail |-> skipfail, runaway |-> runaway, cfgsrc |-> cfgsrc, cfgitem |-> cfgitem, procs |-> procs]
 
 NoFail == [cmd |-> "lint", feu |-> FALSE, nofail |-> TRUE]
@@ -199,7 +203,12 @@ CfgOK(s) == LET f == s.files[1] IN
             /\ s.cfgitem = "warnings" => (f.esup = "warning" \/ f.lsup = "warning")
             /\ s.cfgitem = "ignore" => (f.esup = "ignore" \/ f.lsup = "ignore")
 
+UsageKinds == {"missing_path", "unknown_dialect_cfg", "unknown_dialect_opt", "no_dialect", "bad_option", "bad_templater", "format_rules"}
+Usage  == {[Sc("usage", m, <<f>>, "none", FALSE, 0, "root", "all", 1) EXCEPT !.usage = u] :
+              m \in Modes, f \in {Clean, FixLive}, u \in UsageKinds}
+UsageOK(s) == (s.usage = "format_rules") => (s.cmd = "format")
 FamilyOf(fam) == CASE fam = "single" -> Single
+                   [] fam = "usage"  -> {s \in Usage : UsageOK(s)}
                    [] fam = "pair"   -> {s \in Pair : PairOK(s)}
                    [] fam = "size"   -> {s \in Size : SizeOK(s)}
                    [] fam = "limit"  -> Limit
@@ -225,7 +234,7 @@ Vof(f, r) ==
 Oversized(s, f) == s.limkind # "none" /\ f.size = "over"
 \* the fix loop needs passes+1 loops to see stability: lint_fix_parsed's for/else
 LimitHit(s, f)  == s.cmd # "lint" /\ s.runaway > 0 /\ f.passes >= s.runaway /\ ~NoTree(f)
-RunOf(s, r) == [cmd |-> s.cmd, feu |-> s.feu, nofail |-> s.nofail, skipfail |-> s.skipfail, limkind |-> s.limkind,
+RunOf(s, r) == [usage |-> s.usage, cmd |-> s.cmd, feu |-> s.feu, nofail |-> s.nofail, skipfail |-> s.skipfail, limkind |-> s.limkind,
                 files |-> [i \in 1..Len(s.files) |->
                              [V |-> Vof(s.files[i], r), skipped |-> Oversized(s, s.files[i]),
                               limit |-> LimitHit(s, s.files[i]), notree |-> NoTree(s.files[i])]]]
@@ -248,15 +257,15 @@ Record(s) ==
    LET A == AlgoRun(s)
        AS == AlgoStrRun(s)
        one == Len(s.files) = 1
-   IN [family |-> s.family, cmd |-> s.cmd, feu |-> s.feu, nofail |-> s.nofail, skipfail |-> s.skipfail,
+   IN [family |-> s.family, usage |-> s.usage, cmd |-> s.cmd, feu |-> s.feu, nofail |-> s.nofail, skipfail |-> s.skipfail,
        limkind |-> s.limkind, runaway |-> s.runaway, cfgsrc |-> s.cfgsrc, cfgitem |-> s.cfgitem, procs |-> s.procs,
        files |-> s.files,
        allowed |-> J({VJ(Verdict(RunOf(s, r))) : r \in Readings(s)}),
        algo |-> [path_exit |-> APathExit(A),
-                 path_mod |-> J({i \in FI(A) : A.cmd # "lint" /\ APathModified(A, AFile(A.files[i]))}),
+                 path_mod |-> J({i \in FI(A) : A.cmd # "lint" /\ A.usage = "none" /\ APathModified(A, AFile(A.files[i]))}),
                  skipped |-> ASkipped(A),
                  stdin_exit |-> IF one THEN AStdinExit(AS) ELSE 0,
-                 stdin_mod |-> one /\ A.cmd # "lint" /\ AStdinModified(AS),
+                 stdin_mod |-> one /\ A.cmd # "lint" /\ A.usage = "none" /\ AStdinModified(AS),
                  api_mod |-> one /\ A.cmd # "lint" /\ AApiModified(AS),
                  api_raises |-> one /\ A.cmd # "lint" /\ AApiRaises(AS)],
        facts |-> [i \in 1..Len(s.files) |-> [V |-> J(A.files[i].V), skipped |-> A.files[i].skipped,
@@ -278,10 +287,17 @@ ContractSane ==
       /\ \A i \in FI(R) : MustModify(R, R.files[i]) => MayModify(R, R.files[i])
       /\ \A i \in FI(R) : R.files[i].skipped => ~MayModify(R, R.files[i]) /\ Live(R.files[i]) = {}
       /\ R.cmd = "lint" => \A i \in FI(R) : ~MayModify(R, R.files[i])
-      /\ ExitSet(R) # {} /\ ExitSet(R) \subseteq {0, 1}
-      /\ (R.cmd = "lint" /\ R.nofail) => ExitSet(R) = {0}
+      /\ ExitSet(R) # {} /\ ExitSet(R) \subseteq {0, 1, 2}
+      /\ (2 \in ExitSet(R)) = (R.usage # "none")
+      /\ (R.cmd = "lint" /\ R.nofail /\ R.usage = "none") => ExitSet(R) = {0}
       \* warnings never cause a non-zero exit: turning every warning into "absent" leaves the verdict unchanged
       /\ LET NoW == [R EXCEPT !.files = [i \in FI(R) |-> [R.files[i] EXCEPT !.V = {v \in @ : ~v.warning \/ v.kind \in TmpPrs}]]]
          IN ExitSet(NoW) = ExitSet(R)
 AlgoRefinesContract == ScDiff(sc) = {}
+\* the same, clause by clause, so that each known defect falls out as its own counterexample
+PathCountersRefineExit == "C22.Exit.path" \notin ScDiff(sc)            \* F10 (and F11 with a char limit; unknown dialect in a config file)
+StdinFlagsRefineExit   == "C22.Exit.stdin" \notin ScDiff(sc)           \* F23
+ApiGateRefinesBlocked  == "C18.Modified.api" \notin ScDiff(sc)         \* F3
+SkipsAreCounted        == "C34.SkippedCounted" \notin ScDiff(sc)       \* F11
+EntryPointsAgree       == ScDiff(sc) \cap {"C19.ExitAgree", "C19.ViolationsAgree", "C19.FixedTextAgree", "C19.ApiRaises"} = {}   \* F2, F23, F3
 ===============================================================================
